@@ -41,6 +41,10 @@ def _classes_in(prog: Program, t) -> set:
     found = set()
     if t[0] == "call" and t[1][0] == "func" and t[1][1] in prog.classes:
         return {t[1][1]}
+    if t[0] == "call" and t[1][0] == "dyn":
+        direct = {z[1] for z in subterms(t[1]) if z[0] == "global" and z[1] in prog.classes}
+        if direct:
+            return direct
     # (transport, protocol) = await wait_for(loop.create_connection(lambda: X(), ...)) ; X in {A, B}
     for x in subterms(t):
         if x[0] == "lambda":
